@@ -26,7 +26,8 @@ fn year(v: i64, digits: usize, n: usize) -> Option<(i64, usize, usize)> {
     Some((v, digits, n))
 }
 
-pub fn scenarios() -> Vec<Scn> {
+pub fn scenarios(st: &mut Stats) -> Vec<Scn> {
+    st.stratum("scenario pictures (compiled inside the panic boundary)", true);
     let mut v: Vec<(Ty, &'static str, &'static str, Given, bool)> = vec![];
     // ---- partial pictures: defaults matter
     for ty in [Ty::Date, Ty::Ts, Ty::Ora] {
@@ -110,9 +111,13 @@ pub fn scenarios() -> Vec<Scn> {
     v.push((Ty::YM, "Y", "7", Given { year: year(7, 9, 9), ..g() }, true));
     v.push((Ty::DT, "HH24:MI", "03:00", Given { hour24: Some(3), minute: Some(0), ..g() }, true));
     v.push((Ty::DT, "DD", "-4", Given { day: Some(4), negative: true, ..g() }, true));
-    v.into_iter()
-        .map(|(ty, pic, text, given, complete)| Scn { ty, pic, text, given, f: Formatter::try_new(pic).expect("scenario picture"), complete })
-        .collect()
+    let mut out = vec![];
+    for (ty, pic, text, given, complete) in v {
+        if let Some(f) = compile_picture(st, pic, Some("C18/documented-picture-rejected")) {
+            out.push(Scn { ty, pic, text, given, f, complete });
+        }
+    }
+    out
 }
 
 pub struct K<'a> {
@@ -236,7 +241,7 @@ pub fn check(st: &mut Stats, c: &K) {
 
 pub fn run(ctx: &Ctx, st: &mut Stats) {
     cal();
-    let scns = scenarios();
+    let scns = scenarios(st);
     let ns = scns.len() as i64;
     let tods = [0i64, 45_296_789_012, DAY_US - 1];
     let scns_ref = &scns;
@@ -286,7 +291,7 @@ pub fn run(ctx: &Ctx, st: &mut Stats) {
 }
 
 pub fn replay(v: &Value, st: &mut Stats) -> bool {
-    let scns = scenarios();
+    let scns = scenarios(st);
     let (day, tod) = (ji64(v, "clock_day") as i32, ji64(v, "clock_tod_us"));
     match jstr(v, "kind").as_str() {
         "now" => st.eval(&K { day, tod, scn: None, scn_idx: 0 }, check),
